@@ -148,12 +148,18 @@ class StructCore(object):
 
     @classmethod
     def align_value(cls,psize=0):
+        # a packed structure has no alignment requirement:
+        if cls.packed:
+            return 1
         return max([f.align_value(psize) for f in cls.fields])
 
     def unpack(self, data, offset=0, psize=0):
+        # fields are aligned relatively to the start of the structure
+        # (which is not aligned if it is nested in a packed structure):
+        base = offset
         for f in self.fields:
             if self.union is False and not self.packed:
-                offset = f.align(offset, psize)
+                offset = base + f.align(offset-base, psize)
             try:
                 value = f.unpack(data, offset, psize)
             except Exception:
